@@ -52,7 +52,7 @@ class PayHarness:
         env.max_parts = self.max_new
         env.pay_outcomes = self.outcomes
         env.fault_budget = self.faults
-        env.fault_methods = ('listsendpays', 'waitsendpay')
+        env.fault_methods = getattr(self, 'fault_methods', ('listsendpays', 'waitsendpay'))
         env.fault_codes = ((-1, 'Rpc'), (None, 'General'))
         m.st.env = env
         m.st.roots['H'] = H
@@ -184,7 +184,7 @@ def request_mismatch(nat, script):
 def main(tier, seed, args):
     rep = Report(PID, tier, seed, 'model_checking')
     c = ctx('on')
-    outcomes = ('complete', 'pending', 'failed', 'failed_warning', 'failed_warning_empty', 'error:210', 'error:none')
+    outcomes = ('complete', 'pending', 'failed', 'failed_warning', 'failed_warning_empty', 'error:210', 'error:205', 'error:none')
     rep.bounds = {'pay_outcomes': list(outcomes), 'parts_created_by_pay': 1 if tier == 'quick' else 2,
                   'pre_existing_parts': 1, 'xpay': [False, True], 'faults': '0 (quick) / 1 RPC fault inside wait_payment (thorough)',
                   'outside': 'more parts; more than one RPC fault'}
@@ -204,6 +204,13 @@ def main(tier, seed, args):
         report(rep, name, ex, xpay)
         if ex.violations:
             break
+    if not rep.violations:
+        # the pay command cannot even connect (RpcError::General) while a part of an earlier attempt exists
+        h = PayHarness(c, False, 1, 0, ('error:210',), faults=1)
+        h.fault_methods = ('pay',)
+        name = 'pay[connect failure, 1 earlier part]'
+        ex = run_explorer(rep, c, h, name, max_states=400000)
+        report(rep, name, ex, False)
     if not rep.violations:
         h = PayHarness(c, False, 1, 1, ('error:210',) if tier == 'quick' else ('pending', 'failed_warning', 'error:210'), faults=1)
         name = 'pay[1 rpc fault inside wait_payment]'
